@@ -93,3 +93,29 @@ claim("C12", "At most one word per symbol and the integer potential inequality p
       "function contracts (Kani) + Verus potential lemma")
 for _p in ("C02", "C03", "C05", "C07", "C08", "C11", "C13", "C14", "C15", "C16", "C17", "C18", "C19", "C20"):
     NOT_APPLICABLE[_p] = "check under construction in this session (see DESIGN.md §6); not yet claimed"
+
+# ---------------- Verus unit: ANS (stack.rs)
+_ANS_IMPL_ENC = "Encode<PRECISION>\n    for AnsCoder<Word, State, Backend>"
+_ANS_IMPL_DEC = "Decode<PRECISION>\n    for AnsCoder<Word, State, Backend>"
+verus_unit(
+    name="ans", template="ans_unit.rs.tmpl",
+    widths=["u8_u16", "u8_u32", "u8_u64", "u16_u32", "u16_u64", "u32_u64"],
+    slots={
+        "ENCODE": dict(file="src/stream/stack.rs", anchor=_ANS_IMPL_ENC, fn="encode_symbol", extra=[
+            (r"model\s*\.left_cumulative_and_probability\(symbol\)\s*\.ok_or_else\(\|\| DefaultEncoderFrontendError::ImpossibleSymbol\.into_coder_error\(\)\)\?",
+             "model.left_cumulative_and_probability(symbol).ok_or_impossible()?", 1),
+            (r"self\.bulk\.write\(self\.state\.as_\(\)\)\?;", "self.bulk.write(self.state.s2w()).be()?;", 1),
+        ]),
+        "DECODE": dict(file="src/stream/stack.rs", anchor=_ANS_IMPL_DEC, fn="decode_symbol", extra=[
+            (r"self\.bulk\.read\(\)\?", "self.bulk.read().be()?", 1),
+            (r"word\.into\(\)", "word.w2s()", 1),
+        ]),
+    },
+    obligations={
+        "encode_symbol": dict(own=["C06", "C09"], dep=["C01", "C04", "C12"], kani_twin="ans::u8_u16_p8::conf_encode",
+                              text="ensures: symbol outside model => Err(Frontend), coder unchanged; flush iff state>>(SB-P) >= p; failed write => Err(Backend), coder unchanged; state' == ll_push_head(..) [all P]"),
+        "decode_symbol": dict(own=["C06", "C10"], dep=["C01", "C04"], kani_twin="ans::u8_u16_p8::conf_decode",
+                              text="ensures: Ok(model.sym); state' == ll_pop_head(..), refill iff below 2^(SB-WB) and a word exists; no overflow [all P]"),
+    },
+)
+lemma("lemmas_ans.rs", ["C01", "C04", "C12"])
